@@ -442,6 +442,15 @@ def _read_ttl(payload):
 
     def go():
         y = BigTtlTriplesYielder(raw_graph=text)
+        k = payload.get("abandonAfter")
+        if k is not None:
+            # a consumer that stops early (a peek, a cap, an error of its own): the reader object is then asked again - the second
+            # pass is the document, whatever state the first one was left in
+            g = y.yield_triples()
+            for _ in range(k):
+                if next(g, None) is None:
+                    break
+            g.close()
         return [[_term(s), str(p), _term(o)] for s, p, o in y.yield_triples()]
     st, val, exc, frame = runner.call_guarded(go, timeout=3)
     return {"id": payload["id"], "toks": payload["toks"], "gaps": payload["gaps"], "lines": [list(l) for l in lines[len(HEADER):]],
@@ -513,6 +522,12 @@ def check_c07(out, tier):
         docs.append({"id": "ttl%d" % i, "toks": toks, "gaps": g})
         i += 1
     judge_ttl(out, docs, "layouts")
+    # the same reader object asked twice, the first pass abandoned after k triples
+    again = []
+    for j in range(120 if tier == "quick" else 1500):
+        toks, g = random_ttl_doc(rnd)
+        again.append({"id": "ttlr%d" % j, "toks": toks, "gaps": g, "abandonAfter": rnd.choice([0, 1, 1, 2, 3])})
+    judge_ttl(out, again, "second pass of a reader whose first pass was abandoned")
     # literal typing: quoted literals of every (lexical class, declared kind) and the integer shorthand through the whole pipeline
     from harness import typing_leg
     typing_leg.leg(out, "C07", ["turtle_iter"])
